@@ -162,6 +162,71 @@ CHECKS = {
         "operators outside parser2's grammar, truncated natural subtraction, runs needing > 10 loop iterations or values beyond +-30.",
         "TLA+ operational semantics + reference VC generator, TLC model checking; vector replay and trace validation of imperative/*",
         "6/C20"),
+ "C08": ("model_checking",
+        "TLC model-checks (I) spec/C08_InferImpl.tla: the union-find/reach machine of syntax/infertype.py as coded over all unify "
+        "sequences on {bool, fun, list} with invariants AcyclicOrRejected, SubstTerminates, UnifierOK, and (S) spec/C08_Infer.tla: the "
+        "input space (TLC-enumerated well-typed terms over a 20-constant signature with overloaded arithmetic, polymorphic constants, "
+        "higher-order and schematic variables, nested binders x erasure patterns; all constraint conjunctions over 4 variables = "
+        "occurs-check cycles of length 1-4 in every unification order, clashing uses of a variable) with the algorithm model checked "
+        "against the GoodResult contract. Every generated case, seeded random deeper terms, long random conjunctions and the erased "
+        "theorem statements of theory real are run through the real type_infer; TLC judges each outcome (spec/C08_InferTrace.tla: "
+        "Determined, WellTyped, SameShape, KeepAnnot, KeepDecl, OneType, ConstInst, NoInternal, ErasureRecovers, OwnError, Terminates) "
+        "and compares it with the model's prediction (divergence).",
+        "Trusted: TLC/SANY, structural codec, CPython. The model parameters ExactOccursCheck / AnnotVarCheck are set by a behavioural probe "
+        "of the real code. forbid_internal=False / infer_printed_type, constants annotated at non-instances and unknown constants are not "
+        "examined. A foreign exception or time-out is a violation only with the model-level explanation (rule 5).",
+        "TLA+ as-coded inference machine + contract, TLC model checking; vector replay and trace validation against syntax/infertype.py",
+        "6/C08"),
+ "C15": ("model_checking",
+        "TLC model-checks (S) spec/C15_Sat.tla: every CNF of small universes (clauses as literal sequences with duplicated/complementary "
+        "literals, empty clause, empty CNF; all clause sets over 3 variables) as an initial state of a reference refutation procedure; "
+        "invariants: resolution sound, refutation complete, the certificate format of solve_cnf accepted exactly for unsatisfiable CNFs; "
+        "(I) spec/C15_SatImpl.tla: prover/sat.py::solve_cnf as coded (propagation counting list entries, decisions, conflict analysis with "
+        "the code's resolution, back-jump level) from every such CNF; invariants VerdictCorrect, CertificateValid, Progress/Terminates, "
+        "trail and reason invariants; the constant Dedup is probed from the code. Every CNF is replayed through sat.solve_cnf (plus seeded "
+        "random CNFs up to 12 variables / 60 clauses) and TLC judges every result (spec/C15_SatTrace.tla): assignment satisfies every clause, "
+        "resolution trace replays step by step to the empty clause, verdict equals exhaustive search, time-outs explained by a loop of the "
+        "model; the code's (verdict, certificate) must also be a reachable result of the I model. spec/C15_Tseitin.tla checks a reference "
+        "Tseitin encoding on all formulas up to the bound; tseitin.encode / check_proof / convert_cnf / proofrec.solve_cnf are judged by "
+        "truth tables in spec/C15_TseitinTrace.tla (checker-accepted, valid, CNF of the theorem, equisatisfiable).",
+        "Trusted: TLC/SANY + CommunityModules, CPython, the structural projection of terms to propositional structure in the driver. "
+        "Exhaustive within the small universes (quick 15 541 CNFs, thorough 332 128), sampled beyond; truth tables up to 12 atoms; a time-out "
+        "is a violation only with a model-level or observed-cycle explanation; sat/zchaff.py needs an external Windows binary and is not run.",
+        "TLA+ reference (S) and as-coded (I) specifications of the SAT solver + TLC; vector replay and trace validation of sat / tseitin / proofrec",
+        "6/C15"),
+ "C17": ("model_checking",
+        "TLC model-checks spec/C17_CongC.tla (closure of a set of equations a=b / f(a,b)=c as a least fixpoint: a congruence, the least one "
+        "= what holds in every compatible quotient, Explains sound/complete) and spec/C17_CongCImpl.tla (Nieuwenhuis-Oliveras as coded in "
+        "prover/congc.py: rep, class lists, use lists, lookup, proof forest with path reversal, pending; actions Merge/PropagateOne/Test/"
+        "Explain) on ALL merge sequences of <=3 merges over 3 constants (quick; 4 constants, queries between merges and simulated 7-merge "
+        "sequences in thorough); invariants TestCorrect, ExplainCorrect, QueryCorrect and the structural ones. Every sequence TLC explored "
+        "is replayed on the real CongClosure (record projected, test on all pairs, explain on all equal pairs) and, sampled, on "
+        "CongClosureHOL (theorem exported and run through theory.check_proof), with seeded random long sequences / curried-term scenarios "
+        "(<=8 constants, depth 3) and UnionFind union sequences; TLC evaluates on every event test <=> Closure(merged), Explains(used "
+        "equations), theorem states s=t, checker-accepted, hypotheses among the merged equations (C17_CongCTrace) and compares the record "
+        "with the I specification's run.",
+        "Trusted: TLC/SANY + CommunityModules, the structural naming of HOL subterms to the {constant, f} vocabulary in the driver, the fast "
+        "closure formulation beyond 4 constants (checked equal only on the small scope), CPython. E-matching, abstractions/open terms and "
+        "explain on unequal pairs are not examined.",
+        "TLA+ S/I specifications + TLC (symmetry-reduced, plus simulation); TLC behaviours replayed into the code; trace validation of record and answers",
+        "6/C17"),
+ "C18": ("model_checking",
+        "TLC model-checks spec/C18_Alethe.tla: a machine over the space of candidate veriT/Alethe proof steps - for 73 rules the intended "
+        "instances of reference schemas (spec/C18_Rules.tla) over small formula pools and every one-point near miss (literal dropped/added/"
+        "swapped/replaced by a sibling formula; premise dropped/added; a connective, negation, atom, comparison, arithmetic operator or "
+        "numeral changed; Farkas coefficient, clause size or instantiation perturbed; hypotheses attached); invariants: every intended step "
+        "is a consequence of its premises in all finite models (|'a|<=2, HolSem + xor/IF) or at all grid points with exact rational "
+        "arithmetic, closing it into a whole proof refutes its assumptions, explicit near misses are refuted. Every candidate is evaluated by "
+        "the real macro.eval (smt/veriT/verit_macro.py, la_generic.py), closed into a whole proof run through "
+        "ProofReconstruction.validate_step, and seeded random larger candidates are obtained by substituting random formulas for atoms; TLC "
+        "judges every event (C18_AletheTrace): accepted => result sequent entailed by the premise sequents and hyps within the premises' "
+        "hyps; accepted proof ending in the empty clause => assumed formulas jointly unsatisfiable.",
+        "Trusted: TLC/SANY, structural codec, CPython. Consequence is refuted only by an explicit counter-interpretation (finite standard models "
+        "with |'a|<=2, or integer/half-integer grid points in [-2,2], x/0=0 as in theory real); steps outside both vocabularies are not "
+        "examined. Context rules (refl, bind, let, onepoint, sko_ex, sko_forall) are recorded but not judged; distinct_elim, bfun_elim, "
+        "internal macros and the get_proof_term routes are not covered. The veriT binary and SMT-LIB proofs are absent: only generated steps.",
+        "TLA+ rule schemas + finite-model/arithmetic-grid consequence semantics, TLC; near-miss vector replay and trace validation of smt/veriT",
+        "6/C18"),
 }
 
 NOT_YET = {}
